@@ -1265,3 +1265,46 @@ def show_pc(pcl):
     for t, v in pcl:
         out.append("%s=%s" % (show(t), v))
     return " ∧ ".join(out)
+
+
+def bare(t):
+    """Like show(), but calls are rendered by their last path segment only and borrows / derefs are dropped:
+    `add(bound(0), signed_area(bound(1)))` — convenient for matching small algebraic shapes."""
+    if not isinstance(t, tuple) or not t:
+        return repr(t)
+    k = t[0]
+    if k in ("&", "deref"):
+        return bare(t[1])
+    if k == "arg":
+        return "a%d" % t[1]
+    if k == "bound":
+        return "bound(%d)" % t[1]
+    if k == "const":
+        return str(t[1])
+    if k == "field":
+        return "%s.%s" % (bare(t[1]), t[2])
+    if k == "as":
+        return "(%s as %s)" % (bare(t[1]), t[2])
+    if k == "index":
+        return "%s[%s]" % (bare(t[1]), bare(t[2]))
+    if k == "len":
+        return "len(%s)" % bare(t[1])
+    if k == "cmp":
+        return "(%s %s %s)" % (bare(t[2]), {"lt": "<", "le": "<=", "eq": "=="}[t[1]], bare(t[3]))
+    if k == "un":
+        return "%s(%s)" % (t[1], bare(t[2]))
+    if k == "bin":
+        return "(%s %s %s)" % (bare(t[2]), t[1], bare(t[3]))
+    if k == "adt":
+        return "%s::%s(%s)" % (t[1].rsplit("::", 1)[-1], t[2], ", ".join(bare(x) for x in t[3]))
+    if k in ("tuple", "array"):
+        return ("(%s)" if k == "tuple" else "[%s]") % ", ".join(bare(x) for x in t[1])
+    if k == "call":
+        return "%s(%s)" % (t[1].rsplit("::", 1)[-1], ", ".join(bare(x) for x in t[2]))
+    if k == "closure":
+        return "closure[%s]" % ", ".join(bare(x) for x in t[2])
+    if k == "discr":
+        return "discr(%s)" % bare(t[1])
+    if k == "havoc":
+        return "havoc(%s)" % bare(t[2])
+    return "%s(%s)" % (k, ", ".join(bare(x) if isinstance(x, tuple) else str(x) for x in t[1:]))
